@@ -33,10 +33,20 @@ def hook (k : Proto.CbKind) : M Unit := do
     stepb (.bCbBegin 0 k)
     stepb (.bCbEnd 0 k)
 
+/-- the thread's `on_paused`: the user's hook, then the paused flag (what `Hooks.*.on_paused_is` prove of the source) -/
+def onPaused : M Unit := do
+  hook .pausedHook
+  stepb (.bSetPaused 0)
+
+/-- the thread's `on_resumed`: the paused flag cleared, then the user's hook (`Hooks.*.on_resumed_is`) -/
+def onResumed : M Unit := do
+  stepb (.bClearPaused 0)
+  hook .resumedHook
+
 /-- what each call of the source is in `Proto` -/
 def call (n : String) : M Unit :=
   match n with
-  | "on_paused" => do hook .pausedHook; stepb (.bSetPaused 0)
+  | "on_paused" => onPaused
   | _ => throw Err.offGraph
 
 def ask (n : String) : M Bool :=
@@ -65,8 +75,7 @@ def ask (n : String) : M Bool :=
       let r ← nextAns
       stepb (.bLeaveRead 0 r) r
       if r then do
-        stepb (.bClearPaused 0)
-        hook .resumedHook
+        onResumed
         stepb (.bRelease 0)
         pure true
       else do
@@ -96,7 +105,7 @@ def Left (th : Proto.BThread) : Prop :=
   th.inCb = none ∧ th.holds = false ∧ th.localPaused = false ∧ th.pausedFlag = false ∧ (th.pc = .afterWait ∨ th.pc = .chk)
 
 macro "bi_simp" "[" ts:Lean.Parser.Tactic.simpLemma,* "]" : tactic =>
-  `(tactic| simp [$ts,*, call, ask, hook, stepb, nextAns, failure, Proto.bedge, Proto.bstep, Proto.St.setThr, Proto.cbAllowed,
+  `(tactic| simp [$ts,*, call, ask, onPaused, onResumed, hook, stepb, nextAns, failure, Proto.bedge, Proto.bstep, Proto.St.setThr, Proto.cbAllowed,
       Proto.synthB_resume, Proto.synthB_shutdown, Proto.synthB_thr, Proto.synthB_ctl,
       bind, StateT.bind, pure, StateT.pure, modify, modifyGet, MonadStateOf.modifyGet, StateT.modifyGet, get, getThe,
       MonadStateOf.get, StateT.get, set, StateT.set, throw, throwThe, MonadExceptOf.throw, StateT.lift, liftM, monadLift,
@@ -215,5 +224,44 @@ theorem manage_loop_on_graph (cfg : Cfg) (w : W) (hinv : LoopInv false w.th) :
     · cases d <;> rcases g5 with g5 | g5 <;> bi_simp [Good, AfterGuard, g1, g2, g3, g4, g5]
 
 example := manage_loop_on_graph {} ⟨{ pc := .top }, [true, true, false]⟩ (by simp [LoopInv])
+
+/-! ### `on_paused` / `on_resumed` of the two background thread classes -/
+namespace Hooks
+
+theorem bind_pure_unit (e : Except Err (Unit × W)) : (e.bind fun x => Except.pure ((), x.snd)) = e := by
+  cases e with
+  | error _ => rfl
+  | ok p => cases p; rfl
+
+/-- the calls these methods make: the component's hooks and the thread's own paused flag -/
+def call (n : String) : M Unit :=
+  match n with
+  | "trainers.on_paused" | "interaction.on_paused" => hook .pausedHook
+  | "trainers.on_resumed" | "interaction.on_resumed" => hook .resumedHook
+  | "thread_status.pause" => stepb (.bSetPaused 0)
+  | "thread_status.resume" => stepb (.bClearPaused 0)
+  | _ => throw Err.offGraph
+
+namespace Training
+--%GEN_TRAINING%
+/-- **`TrainingThread.on_paused` runs the trainers' hooks first and sets the paused flag last** (the flag is the
+acknowledgement the control thread waits for), `on_resumed` clears the flag first: the two actions the loop guard's
+interpretation uses. -/
+theorem on_paused_is (cfg : Cfg) : on_paused cfg = onPaused := by
+  funext w; simp [on_paused, onPaused, call, bind, StateT.bind, pure, StateT.pure, bind_pure_unit]
+theorem on_resumed_is (cfg : Cfg) : on_resumed cfg = onResumed := by
+  funext w; simp [on_resumed, onResumed, call, bind, StateT.bind, pure, StateT.pure, bind_pure_unit]
+end Training
+
+namespace Inference
+--%GEN_INFERENCE%
+/-- the same for `InferenceThread` and the interaction's hooks -/
+theorem on_paused_is (cfg : Cfg) : on_paused cfg = onPaused := by
+  funext w; simp [on_paused, onPaused, call, bind, StateT.bind, pure, StateT.pure, bind_pure_unit]
+theorem on_resumed_is (cfg : Cfg) : on_resumed cfg = onResumed := by
+  funext w; simp [on_resumed, onResumed, call, bind, StateT.bind, pure, StateT.pure, bind_pure_unit]
+end Inference
+
+end Hooks
 
 end BI
